@@ -30,6 +30,36 @@ Section Keystore.
   Definition decrypt (password data : list byte) : outcome (list byte) :=
     decrypt_k (key_of password) data.
 
+  (* Decrypt with the caller's buffer as explicit state.  The code calls gcm.Open(nil, nonce,
+     ciphertext, nil): the plaintext goes to a fresh slice and [data] is only read (DstFresh).
+     DstInPlace is the alternative gcm.Open(ciphertext[:0], ...) (seeded change C37-m2): the
+     plaintext overwrites the stored body on success, crypto/cipher zeroes it on an
+     authentication failure; inputs gcm.Open refuses before writing (shorter than nonce + tag)
+     are left alone.  Only DstFresh is the model of the code; DstInPlace exists to show that the
+     statement C37_repeated_attempts can fail. *)
+  Inductive dst_mode := DstFresh | DstInPlace.
+  Definition decrypt_buf (m : dst_mode) (password buf : list byte) : outcome (list byte) * list byte :=
+    let r := decrypt password buf in
+    match m with
+    | DstFresh => (r, buf)
+    | DstInPlace =>
+      if (length buf <? 28)%nat then (r, buf)
+      else match r with
+           | Ok p => (r, firstn 12 buf ++ p ++ skipn (length buf - 16) buf)
+           | Err _ => (r, firstn 12 buf ++ zeros (length buf - 28) ++ skipn (length buf - 16) buf)
+           | _ => (r, buf)
+           end
+    end.
+  (* a sequence of Decrypt calls on the same in-memory buffer, one password per call *)
+  Fixpoint attempts (m : dst_mode) (buf : list byte) (pws : list (list byte))
+    : list (outcome (list byte)) * list byte :=
+    match pws with
+    | [] => ([], buf)
+    | pw :: rest =>
+      let '(r, buf') := decrypt_buf m pw buf in
+      let '(rs, b) := attempts m buf' rest in (r :: rs, b)
+    end.
+
   (* Decrypt of the pinned tree: data[:nonceSize] / data[nonceSize:] without a length check;
      slicing beyond the length panics *)
   Definition decrypt_prefix_k (key data : list byte) : outcome (list byte) :=
